@@ -74,6 +74,9 @@ def gen_case(rng, tier, idx):
         envs = [e if e != 'reuse' else 'prior' for e in envs]
     if _twin_problem(sc) is None:
         envs = [e if e != 'twin' else 'warm' for e in envs]
+    if sc['component'] == 'ga':
+        envs.append('allocfail')
+    envs = [e if e != 'allocfail' or sc['component'] == 'ga' else 'prior' for e in envs]
     if sc['component'] not in ('semimdp', 'rollout_mdp', 'evaluate_mdp') or sc['problem'].get('type') != 'mdp':
         envs = [e if e != 'shared' else 'nested' for e in envs]
     elif 'shared' not in envs and rng.random() < 0.5:
@@ -238,7 +241,7 @@ def execute(case, script=None):
     comp = sc['component']
     ctx = RunCtx(PROP, None)
     ctx.CB_CAP = 10 ** 8
-    ctx.declare_probes('reference_ok', 'env_prior', 'env_midrun', 'env_reuse', 'env_warm', 'env_abort', 'env_unpatched', 'env_twin', 'env_nested', 'env_shared', 'env_again', 'nested_runs_delivered', 'injections',
+    ctx.declare_probes('reference_ok', 'env_prior', 'env_midrun', 'env_reuse', 'env_warm', 'env_abort', 'env_unpatched', 'env_twin', 'env_nested', 'env_shared', 'env_again', 'env_allocfail', 'allocation_failures_delivered', 'nested_runs_delivered', 'injections',
                        'aborts_delivered', 'seed_zero', 'string_keys', 'shipped_domain', 'equally_seeded_pairs')
     sched = Scheduler(case['sched']['seed'], mode='P', cap=10 ** 9)
     ctx.sched = sched
@@ -312,6 +315,34 @@ def execute(case, script=None):
                     raise
                 out, _, _ = _run(sc, ctx, sched)
                 compare(out, 'after-an-equal-keyed-twin-problem-in-the-same-process')
+            elif envname == 'allocfail':
+                # fault F11 (failing allocation): the k-th tensor allocation of the run is refused - what a controller too
+                # large for memory meets - and the caller carries on.  The failed seeded call must leave the global
+                # generators as they were, and the next run must be the reference run
+                import torch
+                gset(14)
+                b = gsnap()
+                real = torch.rand
+                box = dict(n=0, k=1 + prng.randrange(3))
+
+                def refusing(*a, **k):
+                    box['n'] += 1
+                    if box['n'] == box['k']:
+                        sched.fire('F11_allocation_failure')
+                        raise RuntimeError("[injected] DefaultCPUAllocator: can't allocate memory")
+                    return real(*a, **k)
+                torch.rand = refusing
+                try:
+                    died, _, _ = _run(sc, ctx, sched)
+                finally:
+                    torch.rand = real
+                if 'exception' in died:
+                    ctx.probe('allocation_failures_delivered')
+                d = gdiff(b, gsnap())
+                ctx.check(not d, 'isolation', lambda: f"{comp}: a seeded run that died on a refused allocation left the global generator(s) {d} advanced or reseeded",
+                          key=f"isolation/{comp}/after-failed-allocation/{'+'.join(d)}")
+                out, _, _ = _run(sc, ctx, sched)
+                compare(out, 'after-a-run-that-died-on-a-refused-allocation')
             elif envname == 'again':
                 # the SAME problem object serves two seeded runs one after the other: first this scenario or another seeded
                 # component, then this scenario (fresh planner / learner objects); the model must come out as it went in
